@@ -14,8 +14,8 @@ RULE = ('(transfer) a real BTP-U agent segments a generated bundle (1..20000 oct
         'chain): declared lengths == actual lengths, frame <= MTU, MessageSet(frame) re-encodes to the same octets, segment '
         'payloads concatenated by index == bundle, the last is a Transfer End with the highest index.  The frames are then '
         'handed to the real _recv_msg of a second agent in a generated permutation (ALL permutations for transfers with <= '
-        '5 segments), interleaved with a second transfer on another transfer number or another channel, without advancing '
-        'the clock: exactly one item equal to the bundle is queued, and only when the last missing segment arrives.  '
+        '5 segments), interleaved with a second transfer on another transfer number or another channel, one message per frame or '
+        'two / three consecutive arrivals put into one frame: exactly one item equal to the bundle is queued, and only when the last missing segment arrives.  '
         '(codec, both directions: decode a reference frame and re-encode it; build the same message set from objects and read it with the independent parser; the same hint may occur twice in a list) reference-encoded frames (bundle PDU, transfer segment/end with 0-3 hints of 0-255 octets, definite '
         'padding, several messages per frame, zero padding) must decode to the same messages and re-encode to the same '
         'octets.  Non-trivial = >= 3 segments in non-index order, or a codec frame with >= 2 messages; distinct by SHA-1.')
@@ -74,7 +74,8 @@ def transfer_cases(draw):
     arrival = draw(st.lists(st.integers(0, 255), max_size=40))
     return {'kind': 'transfer', 'mtu': mtu, 'length': length, 'seed': draw(st.integers(0, 99)), 'xfer': xfer,
             'other': draw(st.sampled_from([None, 'number', 'channel'])), 'arrival': arrival,
-            'gap_ms': draw(st.sampled_from([0, 0, 300, 900]))}
+            'gap_ms': draw(st.sampled_from([0, 0, 300, 900])),
+            'group': draw(st.one_of(st.just([]), st.lists(st.integers(1, 3), max_size=8)))}
 
 
 @st.composite
@@ -123,6 +124,10 @@ def enumerate_cases(tier):
                 choices.append(remaining.index(pick))
                 remaining.remove(pick)
             yield {'kind': 'transfer', 'mtu': mtu, 'length': length, 'seed': 1, 'xfer': 7, 'other': None, 'arrival': choices}
+            if (mtu, length) == combos[1]:
+                # the same arrival orders with two or three messages per frame
+                for group in ([2, 2, 2], [3, 3], [1, 3, 1]):
+                    yield {'kind': 'transfer', 'mtu': mtu, 'length': length, 'seed': 1, 'xfer': 7, 'other': None, 'arrival': choices, 'group': group}
 
 
 def pinned_cases():
@@ -246,11 +251,27 @@ def run_transfer(case, out):
     got = [set(), set()]
     need = [len(frames), len(other_frames)]
     wants = [data, other_data]
-    announced = 0
     # (only without a second interleaved transfer: otherwise the pause between two segments of one transfer would add up)
     gap_ms = int(case.get('gap_ms') or 0) if not case.get('other') else 0
+    # several messages in one frame: consecutive arrivals on one channel are put into one frame (a message set), as a
+    # sender with a larger MTU or a relay may do
+    deliveries = []
+    groups = list(case.get('group') or [])
     for which, idx in order:
         frame = frames[idx] if which == 0 else other_frames[idx]
+        fchan = chan if which == 0 else other_chan
+        size = groups[0] if groups else 1
+        last = deliveries[-1] if deliveries else None
+        if last is not None and last['chan'] is fchan and len(last['items']) < size and len(last['frame']) + len(frame) <= 9000:
+            last['items'].append((which, idx))
+            last['frame'] += frame
+        else:
+            if last is not None and groups:
+                groups.pop(0)
+            deliveries.append({'chan': fchan, 'items': [(which, idx)], 'frame': frame})
+    if any(len(d['items']) > 1 for d in deliveries):
+        out.label('several-messages-per-frame')
+    for dlv in deliveries:
         if gap_ms:
             # the segments trickle in: less than the receive timeout (1 s, restarted by every segment according to its
             # documentation) lies between two of them, but the whole transfer may take longer than that
@@ -261,30 +282,34 @@ def run_transfer(case, out):
         before = len([e for e in dbus.RECORDER.events if e['kind'] == 'signal' and e['member'] == 'recv_bundle_finished' and e['obj'] is receiver])
         with simloop.entered(rctx):
             try:
-                receiver._recv_msg(None, frame, chan if which == 0 else other_chan)
+                receiver._recv_msg(None, dlv['frame'], dlv['chan'])
             except Exception as exc:
                 out.fail('recv-raises:%s' % type(exc).__name__, '_recv_msg raised %s: %s (%s)' % (type(exc).__name__, exc, where))
                 return
         after_ev = [e for e in dbus.RECORDER.events if e['kind'] == 'signal' and e['member'] == 'recv_bundle_finished' and e['obj'] is receiver]
-        got[which].add(idx)
-        complete = len(got[which]) == need[which]
+        completed = []
+        for which, idx in dlv['items']:
+            was = len(got[which]) == need[which]
+            got[which].add(idx)
+            if not was and len(got[which]) == need[which]:
+                completed.append(which)
         new = len(after_ev) - before
-        if complete and new != 1:
-            out.fail('not-queued-when-complete', 'the last missing segment of transfer %d arrived (order %s) but %d bundles were queued (%s)'
-                     % (which, order[:12], new, where))
-        if not complete and new != 0:
-            out.fail('queued-while-incomplete', '%d bundle(s) queued with %d of %d segments of transfer %d received (%s)'
-                     % (new, len(got[which]), need[which], which, where))
-        if new:
-            bid = after_ev[-1]['args'][0]
-            item = receiver._rx_queue.get(int(bid))
-            blob = item.file.getvalue() if item is not None else None
-            if blob != wants[which]:
-                out.fail('reassembled-bundle-differs', 'queued bundle has %s octets, original %d (%s, arrival %s)'
-                         % (None if blob is None else len(blob), len(wants[which]), where, order[:12]))
+        if new < len(completed):
+            out.fail('not-queued-when-complete', 'the last missing segment of transfer(s) %s arrived (order %s, frame with messages %s) but %d bundles were queued (%s)'
+                     % (completed, order[:12], dlv['items'], new, where))
+        if new > len(completed):
+            out.fail('queued-while-incomplete', '%d bundle(s) queued, transfers completed by this frame: %s (received %s of %s) (%s)'
+                     % (new, completed, [len(g) for g in got], need, where))
+        if new and new == len(completed):
+            blobs = []
             for ev in after_ev[-new:]:
+                item = receiver._rx_queue.get(int(ev['args'][0]))
+                blobs.append(item.file.getvalue() if item is not None else None)
                 if ev.get('error'):
                     out.fail('signal-does-not-marshal', 'recv_bundle_finished%r: %s' % (ev['args'], ev['error']))
+            if sorted(blobs, key=repr) != sorted((wants[w] for w in completed), key=repr):
+                out.fail('reassembled-bundle-differs', 'queued bundle(s) have %s octets, original(s) %s (%s, arrival %s)'
+                         % ([None if b is None else len(b) for b in blobs], [len(wants[w]) for w in completed], where, order[:12]))
     # long after everything is complete: whatever timers are left must not do any harm
     simloop.advance_to(simloop.CLOCK.now_ms + 2500)
     for _ in range(200):
